@@ -148,9 +148,9 @@ static void pstr(const char *k, const char *v)
 	if (!v) { printf("~"); return; }
 	for (; *v; v++) { if (*v == '|' || *v == '}' || *v == '\n' || *v == ' ' || *v == '\\' || (unsigned char)*v < 32) printf("\\x%02x", (unsigned char)*v); else putchar(*v); }
 }
-static void dump_task(echs_task_t t, int nocc)
+static void dump_fields(echs_task_t t)
 {
-	printf("S{uid=%s", t->oid ? obint_name(t->oid) : "~");
+	printf("uid=%s", t->oid ? obint_name(t->oid) : "~");
 	pstr("cmd", t->cmd);
 	pnms("owner", t->owner);
 	pnms("u", t->run_as.u);
@@ -167,6 +167,9 @@ static void dump_task(echs_task_t t, int nocc)
 	printf("|vtod=%u", (unsigned)t->vtod_typ);
 	if (t->vtod_typ == 1) printf("|timeout=%lld", (long long)t->timeout.d);
 	else if (t->vtod_typ == 2) printf("|due=%016llx", (unsigned long long)t->due.u);
+}
+static void dump_occ(echs_task_t t, int nocc)
+{
 	printf("|occ=");
 	if (t->strm) {
 		for (int i = 0; i < nocc; i++) {
@@ -175,7 +178,76 @@ static void dump_task(echs_task_t t, int nocc)
 			printf("%s%016llx+%lld", i ? "," : "", (unsigned long long)e.from.u, (long long)e.dur.d);
 		}
 	} else printf("~");
+}
+static void dump_task(echs_task_t t, int nocc)
+{
+	printf("S{");
+	dump_fields(t);
+	dump_occ(t, nocc);
 	printf("}");
+}
+
+/* read every task a text yields (whole buffer), at most max */
+static size_t parse_tasks(const char *txt, size_t len, echs_task_t *out, size_t max)
+{
+	ical_parser_t pp = NULL;
+	size_t n = 0;
+	if (echs_evical_push(&pp, txt, len) < 0) return 0;
+	for (;;) {
+		echs_instruc_t ins = echs_evical_pull(&pp);
+		if (ins.v == INSVERB_SCHE) { if (ins.t && n < max) out[n++] = ins.t; }
+		else if (ins.v == INSVERB_UNK) break;
+	}
+	if (pp != NULL) {
+		echs_instruc_t ins = echs_evical_last_pull(&pp);
+		if (ins.v == INSVERB_SCHE && ins.t && n < max) out[n++] = ins.t;
+	}
+	return n;
+}
+
+/* p.rt HEX K N : read the first task, consume K occurrences, write the task out (echs_task_icalify, what echsq, the daemon's
+ * checkpoint and `echse merge' do), read that text back; print  A{fields|occ=next N of the original}  B{fields|occ=first N of the
+ * re-read task}  T{hex of the text written} */
+static void do_roundtrip(char *hex, int k, int nocc)
+{
+	static char txt[1 << 20];
+	static char back[1 << 20];
+	size_t len = 0;
+	for (char *h = hex; h[0] && h[1] && len + 1 < sizeof(txt); h += 2) { unsigned v; sscanf(h, "%2x", &v); txt[len++] = (char)v; }
+	txt[len] = 0;
+	echs_task_t t[4];
+	size_t nt = parse_tasks(txt, len, t, 4);
+	if (!nt) { puts("none"); return; }
+	for (int i = 0; i < k && t[0]->strm; i++) {
+		echs_event_t e = echs_evstrm_pop(t[0]->strm);
+		if (echs_event_0_p(e)) break;
+	}
+	char tmpl[] = "/tmp/hx_rt_XXXXXX";
+	int fd = mkstemp(tmpl);
+	if (fd < 0) { puts("<mkstemp>"); return; }
+	unlink(tmpl);
+	static const char hdr[] = "BEGIN:VCALENDAR\nVERSION:2.0\n";
+	static const char ftr[] = "END:VCALENDAR\n";
+	if (write(fd, hdr, sizeof(hdr) - 1) < 0) { }
+	echs_task_icalify(fd, t[0]);
+	fdbang(fd); fdflush();
+	if (write(fd, ftr, sizeof(ftr) - 1) < 0) { }
+	off_t z = lseek(fd, 0, SEEK_CUR);
+	lseek(fd, 0, SEEK_SET);
+	ssize_t nb = read(fd, back, z < (off_t)sizeof(back) ? (size_t)z : sizeof(back) - 1);
+	close(fd);
+	if (nb < 0) nb = 0;
+	back[nb] = 0;
+	printf("A{"); dump_fields(t[0]); dump_occ(t[0], nocc); printf("} ");
+	echs_task_t u[4];
+	size_t nu = parse_tasks(back, (size_t)nb, u, 4);
+	if (!nu) printf("B{none}");
+	else { printf("B{"); dump_fields(u[0]); dump_occ(u[0], nocc); printf("}"); }
+	printf(" T{");
+	for (ssize_t i = 0; i < nb; i++) printf("%02x", (unsigned char)back[i]);
+	printf("}\n");
+	for (size_t i = 0; i < nt; i++) free_echs_task(t[i]);
+	for (size_t i = 0; i < nu; i++) free_echs_task(u[i]);
 }
 
 static void do_parse(char *hex, char **sizes, int nsizes, int nocc, int withlines)
@@ -236,6 +308,10 @@ int main(void)
 		ntk = 0;
 		for (char *p = strtok(line, " "); p && ntk < (1 << 18); p = strtok(NULL, " ")) toks[ntk++] = p;
 		if (ntk == 0) { puts("bad-op"); continue; }
+		if (!strcmp(toks[0], "p.rt") && ntk >= 4) {
+			do_roundtrip(toks[1], atoi(toks[2]), atoi(toks[3]));
+			continue;
+		}
 		if ((!strcmp(toks[0], "p.parse") || !strcmp(toks[0], "p.lines")) && ntk >= 2) {
 			/* p.parse HEX | chunk sizes…   (p.lines: also the unfolded lines the parser acted upon) */
 			int bar = 2;
